@@ -537,6 +537,43 @@ where
     fn text(_k: u8) -> Option<BP<'a, Self>> {
         None
     }
+    fn nested(_inner: &G, _n: usize) -> Option<BP<'a, Self>> {
+        None
+    }
+}
+
+pub const NEST_CTX: u32 = 7;
+/// `inner.nested_in(region)`: the next `n` tokens of the outer input are collected and `mk` builds a
+/// NEW input of the same kind from them (in this commit `nested_in` only type-checks when inner and
+/// outer input are the same type): a fresh slice, a fresh stream over a fresh iterator, a fresh reader.
+/// `inner` must match it completely.
+pub fn mk_nested<'a, I>(inner: &G, n: usize, mk: fn(Vec<I::Token>) -> I) -> BP<'a, I>
+where
+    I: Caps<'a>,
+    I::Token: Tok,
+    I::Span: SpanX,
+{
+    let a: BP<'a, I> = build::<I>(inner);
+    let region = any::<I, Ex<'a, I>>().repeated().exactly(n).collect::<Vec<I::Token>>().map(move |v: Vec<I::Token>| -> I {
+        hook::cb();
+        mk(v)
+    });
+    a.nested_in(region).boxed()
+}
+
+/// keeps the tokens of a nested region alive until the case ends
+fn keep_slice<'x>(v: Vec<u8>) -> &'x [u8] {
+    let arena: &'static Arena = NO_ARENA.with(|a| *a);
+    let kept: &'x Vec<u8> = arena.put_any(v);
+    &kept[..]
+}
+fn fresh_iter(v: Vec<u8>) -> SimIter<u8> {
+    SimIter::new(std::rc::Rc::new(v), crate::sources::Hint::Unknown).0
+}
+fn fresh_reader(v: Vec<u8>) -> SimReader {
+    let mut pol = crate::sources::ReaderPolicy::full();
+    pol.chunk = crate::sources::Chunk::Fixed(2);
+    SimReader::new(std::rc::Rc::new(v), pol, crate::prng::Rng::new(7)).0
 }
 
 macro_rules! cap_fns {
@@ -577,6 +614,53 @@ macro_rules! cap_fns {
             }
         }
     };
+    // nested_in: how a fresh input of this very kind is made from the collected tokens of a region
+    (nest_slice) => {
+        fn nested(inner: &G, n: usize) -> Option<BP<'a, Self>> {
+            Some(mk_nested::<Self>(inner, n, |v| keep_slice(v)))
+        }
+    };
+    (nest_bytes) => {
+        fn nested(inner: &G, n: usize) -> Option<BP<'a, Self>> {
+            Some(mk_nested::<Self>(inner, n, |v| bytes::Bytes::from(v)))
+        }
+    };
+    (nest_stream) => {
+        fn nested(inner: &G, n: usize) -> Option<BP<'a, Self>> {
+            Some(mk_nested::<Self>(inner, n, |v| Stream::from_iter(fresh_iter(v))))
+        }
+    };
+    (nest_stream_boxed) => {
+        fn nested(inner: &G, n: usize) -> Option<BP<'a, Self>> {
+            Some(mk_nested::<Self>(inner, n, |v| Stream::from_iter(fresh_iter(v)).boxed()))
+        }
+    };
+    (nest_stream_exact) => {
+        fn nested(inner: &G, n: usize) -> Option<BP<'a, Self>> {
+            // (an ExactSizeIterator must report an exact size_hint)
+            Some(mk_nested::<Self>(inner, n, |v| Stream::from_iter(SimIter::new(std::rc::Rc::new(v), crate::sources::Hint::Exact).0).exact_size_boxed()))
+        }
+    };
+    (nest_io) => {
+        fn nested(inner: &G, n: usize) -> Option<BP<'a, Self>> {
+            Some(mk_nested::<Self>(inner, n, |v| IoInput::new(fresh_reader(v))))
+        }
+    };
+    (nest_ctx_slice) => {
+        fn nested(inner: &G, n: usize) -> Option<BP<'a, Self>> {
+            Some(mk_nested::<Self>(inner, n, |v| keep_slice(v).with_context::<CSp>(NEST_CTX)))
+        }
+    };
+    (nest_ctx_stream) => {
+        fn nested(inner: &G, n: usize) -> Option<BP<'a, Self>> {
+            Some(mk_nested::<Self>(inner, n, |v| Stream::from_iter(fresh_iter(v)).with_context::<CSp>(NEST_CTX)))
+        }
+    };
+    (nest_ctx_io) => {
+        fn nested(inner: &G, n: usize) -> Option<BP<'a, Self>> {
+            Some(mk_nested::<Self>(inner, n, |v| IoInput::new(fresh_reader(v)).with_context::<CSp>(NEST_CTX)))
+        }
+    };
     (text_str) => {
         fn text(k: u8) -> Option<BP<'a, Self>> {
             Some(if k >= 9 { mk_regex::<Self, str>(k) } else { mk_text::<Self>(k, Some(mk_newline::<Self>())) })
@@ -596,20 +680,20 @@ type CSp = chumsky::span::SimpleSpan<usize, u32>;
 use chumsky::input::{BoxedExactSizeStream, BoxedStream, IoInput, MappedInput, MappedSpan, Stream, WithContext};
 use crate::sources::{SimIter, SimReader};
 
-caps!([] &'a [u8]; slice, borrow, exact, text_u8);
+caps!([] &'a [u8]; slice, borrow, exact, text_u8, nest_slice);
 caps!([] &'a [char]; slice, borrow, exact);
 caps!([const N: usize] &'a [u8; N]; slice, borrow, exact, text_u8);
 caps!([] &'a str; slice, exact, text_str);
-caps!([] bytes::Bytes; slice, exact, text_owned);
-caps!([] Stream<SimIter<u8>>;);
+caps!([] bytes::Bytes; slice, exact, text_owned, nest_bytes);
+caps!([] Stream<SimIter<u8>>; nest_stream);
 caps!([] Stream<SimIter<char>>;);
-caps!([] BoxedStream<'a, u8>;);
-caps!([] BoxedExactSizeStream<'a, u8>; exact);
-caps!([] IoInput<SimReader>;);
-caps!([] WithContext<CSp, &'a [u8]>; slice, borrow, exact, text_u8);
+caps!([] BoxedStream<'a, u8>; nest_stream_boxed);
+caps!([] BoxedExactSizeStream<'a, u8>; exact, nest_stream_exact);
+caps!([] IoInput<SimReader>; nest_io);
+caps!([] WithContext<CSp, &'a [u8]>; slice, borrow, exact, text_u8, nest_ctx_slice);
 caps!([] WithContext<CSp, &'a str>; slice, exact, text_str);
-caps!([] WithContext<CSp, Stream<SimIter<u8>>>;);
-caps!([] WithContext<CSp, IoInput<SimReader>>;);
+caps!([] WithContext<CSp, Stream<SimIter<u8>>>; nest_ctx_stream);
+caps!([] WithContext<CSp, IoInput<SimReader>>; nest_ctx_io);
 caps!([F: Fn(SSp) -> CSp + 'a] MappedSpan<CSp, &'a [u8], F>; slice, borrow, exact, text_u8);
 caps!([F: Fn(SSp) -> CSp + 'a] MappedSpan<CSp, &'a str, F>; slice, exact, text_str);
 caps!([F: Fn(SSp) -> CSp + 'a] MappedSpan<CSp, Stream<SimIter<u8>>, F>;);
@@ -643,6 +727,7 @@ macro_rules! caps_arms_yes {
             }
             G::SpanFrom => I::span_from_probe().expect("harness: input kind lacks ExactSizeInput"),
             G::Text(k) => I::text(*k).expect("harness: input kind lacks StrInput (or a borrowed slice type for regex)"),
+            G::Nested(inner, n) => I::nested(inner, *n as usize).expect("harness: input kind lacks the nest capability"),
             _ => unreachable!(),
         }
     };
@@ -982,7 +1067,7 @@ macro_rules! define_builder {
                 }
                 G::Rec(body) => $rec!($name, cx, &**body),
                 G::RecRef => cx.rec.last().expect("harness: RecRef outside Rec").clone(),
-                other @ (G::Slice(_) | G::AnyRef | G::SelectRef(_) | G::SpanFrom | G::SliceFrom | G::Text(_)) => $caps_arms!(cx, sub, other),
+                other @ (G::Slice(_) | G::AnyRef | G::SelectRef(_) | G::SpanFrom | G::SliceFrom | G::Text(_) | G::Nested(..)) => $caps_arms!(cx, sub, other),
                 other => $value_arms!($erase, sub, cx, other),
             }
         }
